@@ -412,7 +412,10 @@ Proof.
   destruct Hak as [ak [Hroute Hak]].
   exists ak. eexists. split; [|split; [exact Hroute|split; [|split]]].
   - unfold options_from_frame, first_options, bind; cbn. rewrite Hc. cbn.
-    unfold preset_ok, MIN_NAME_LOOKUP_SIZE. replace (o_maxn o <? 8) with false by (symmetry; apply N.ltb_ge; lia). reflexivity.
+    unfold preset_ok, MIN_NAME_LOOKUP_SIZE, MAX_LOOKUP_SIZE. replace (o_maxn o <? 8) with false by (symmetry; apply N.ltb_ge; lia).
+    replace (o_maxn o <=? 4096) with true by (symmetry; apply N.leb_le; lia).
+    replace (o_maxp o <=? 4096) with true by (symmetry; apply N.leb_le; lia).
+    replace (o_maxd o <=? 4096) with true by (symmetry; apply N.leb_le; lia). reflexivity.
   - unfold decoder_new, ldec_new, bind, po_of, MAX_LOOKUP_SIZE; cbn.
     replace (4096 <? o_maxn o) with false by (symmetry; apply N.ltb_ge; lia).
     replace (4096 <? o_maxp o) with false by (symmetry; apply N.ltb_ge; lia).
